@@ -53,6 +53,14 @@ example : epochsPad [false, false, true] 4 = (.ok [(1, 3)], [false, true, true])
 /-- a negative `pad` passes `if pad:`; `x[e:e+pad]` is then `x[1:-1]` here: a slice that ends one before the END of the array. -/
 example : epochsPad [true, false, false, false] (-2) = (.ok [(0, 3)], [true, true, true, false]) := by decide
 
+/-- with the repair of notes/EXT18_fix_1.diff (`x[max(s-pad, 0):s] = 1`) the guard disappears: for every array and every
+`pad ≥ 0` the result is the run detection of the dilated signal. -/
+theorem epochs_pad_fixed_eq_runs_dilate (x : List Bool) (pad : Nat) :
+    epochsPadFixed x (pad : Int) = (.ok (maximalRuns (dilate x pad)), dilate x pad) := by
+  simp [epochsPadFixed, epochs_eq_runs, paddedFixed_eq_dilate]
+
+example : epochsPadFixed [false, true, false, false] 2 = (.ok [(0, 4)], [true, true, true, true]) := by decide
+
 /-! ### `epochs_contain` -/
 
 /-- `util.epochs_contain(e, t)` on a table with `start ≤ end` in every row:
